@@ -3,6 +3,7 @@
    specification: IW.JSON.PatchSpec (rfc6902 over pure values; `strict` = the RFC, `lenient` = the library's reading). *)
 Require Import ZArith List Bool.
 Require Import IW.Lib.CInt IW.UT.Conv IW.JSON.Val IW.JSON.Patch IW.JSON.PatchSpec IW.JSON.Patch_proofs IW.Gen.Facts.
+Require Import IW.JSON.Binn IW.JSON.Merge IW.JSON.WriteBack IW.JSON.WriteBack_proofs.
 Import ListNotations. Local Open Scope Z_scope.
 
 (* trees built by jbn_from_json / _jbl_node_from_binn (`of_val`) satisfy "cached index = position, cached key length =
@@ -244,3 +245,91 @@ Proof.
   cbv zeta. split; [apply of_val_inv1|]. split; [intros v H; discriminate|].
   split; [split; [discriminate | intros _; discriminate]|]. repeat split; reflexivity.
 Qed.
+
+(* ================================================================== the write-back step of the binary-form API modes
+   (added after seeded change round5/C15: _jbl_patch went on after a failed _jbl_from_node_impl and swapped a half-built value
+   in).  C15_failed_patch_leaves_binary above holds for EVERY writer `enc`, also one that fails; what was missing is the writer
+   itself: WriteBack.v models _jbl_from_node_impl with the member rule of the binn object (name <= JP_BINN_KEY_MAX bytes, no
+   name equal to an earlier one up to ASCII letter case), jbl_patch_model = patch_binary with that writer. *)
+
+(* SearchForKey refuses a name because of a stored one iff same length and same C string up to ASCII letter case *)
+Theorem C15_binn_name_clash_is_case_fold : forall stored key,
+  key_clash stored key = true <-> length stored = length key /\ map tolower (cstr stored) = map tolower (cstr key).
+Proof. exact key_clash_spec. Qed.
+Print Assumptions C15_binn_name_clash_is_case_fold.
+
+(* the names an object of the binary form can hold: none too long, no two clashing *)
+Theorem C15_representable_names : forall ks, keys_ok ks = true <->
+  Forall (fun k => zlen k <= JP_BINN_KEY_MAX) ks /\ ForallOrdPairs (fun a b => key_clash a b = false) ks.
+Proof. exact keys_ok_spec. Qed.
+Print Assumptions C15_representable_names.
+
+(* _jbl_from_node_impl stores exactly the value of the tree when the binary form can hold it, and fails otherwise *)
+Theorem C15_writeback_stores_value_or_fails : forall n, good n ->
+  wb_enc n = if representable (val n) then Some (val n) else None.
+Proof. exact wb_enc_spec. Qed.
+Print Assumptions C15_writeback_stores_value_or_fails.
+
+Theorem C15_stored_document_reads_back : forall n b', good n -> wb_store n = Some b' ->
+  val b' = val n /\ good b' /\ representable (val b') = true /\ wb_store b' = Some b'.
+Proof. exact wb_store_reads_back. Qed.
+Print Assumptions C15_stored_document_reads_back.
+
+(* jbl_patch / jbl_patch_from_json, every operation applicable per RFC 6902: success with exactly the RFC document when the
+   binary form can hold it; otherwise JBL_ERROR_CREATION and the document is the one passed in.  (This replaces the second
+   hypothesis of C15_patch_binary_rfc_partial - "the writer never fails" - which the real writer does not satisfy.) *)
+Theorem C15_patch_writeback_partial : forall fo b raw ops d',
+  klidx_inv b -> raw <> [] -> parse_ops raw = inr ops -> ops_ok ops -> Forall no_root_alias (map sop_of ops) ->
+  rfc_program strict (f_eq fo) (doc_val b) (map sop_of ops) = Some d' ->
+  jbl_patch_model fo b raw =
+  match d' with
+  | None => (RcOk, zero_node)
+  | Some v => if representable v then (RcOk, of_val 0 [] v) else (RcCreation, b)
+  end.
+Proof. exact patch_writeback. Qed.
+Print Assumptions C15_patch_writeback_partial.
+
+(* whatever fails - an operation or the write-back - the document is the one passed in: all programs, all documents *)
+Theorem C15_patch_failure_unchanged : forall fo b raw,
+  fst (jbl_patch_model fo b raw) <> RcOk -> snd (jbl_patch_model fo b raw) = b.
+Proof. exact patch_failure_unchanged. Qed.
+Print Assumptions C15_patch_failure_unchanged.
+
+(* a successful call never leaves a document the binary form cannot hold *)
+Theorem C15_patch_success_storable : forall fo b raw ops b',
+  klidx_inv b -> wb_store b = Some b -> parse_ops raw = inr ops -> ops_ok ops ->
+  jbl_patch_model fo b raw = (RcOk, b') -> b' = zero_node \/ wb_store b' = Some b'.
+Proof. exact patch_success_storable. Qed.
+Print Assumptions C15_patch_success_storable.
+
+(* the name rule the model states is the one probed from the library on this run (tools/probes/probe_jpatch.c) *)
+Example C15_ex_binn_rule_probed : JP_BINN_KEY_NOCASE = 1 /\ 0 < JP_BINN_KEY_MAX.
+Proof. split; reflexivity. Qed.
+
+Definition ex_wb_doc : node :=
+  of_val 0 [] (JObj [([97], JI64 1); ([98], JObj [([120], JI64 1)]); ([99], JArr [JI64 1; JI64 2; JI64 3]); ([100], JStr [116;97;105;108])]).
+(* {"a":1,"b":{"x":1},"c":[1,2,3],"d":"tail"} with add /b/X 2 (the seeder's first scenario): the tree API gives the RFC document,
+   the binary form cannot hold it ("X" next to "x" in an object that is not the last member), JBL_ERROR_CREATION, document as
+   before - and with add /b/y instead the call succeeds *)
+Example C15_ex_writeback_twin :
+  let add k := {| r_op := OAdd; r_path := Some [47;98;47;k]; r_from := None; r_val := Some (ex_vnode (JI64 2)) |} in
+  let res k := JObj [([97], JI64 1); ([98], JObj [([120], JI64 1); ([k], JI64 2)]); ([99], JArr [JI64 1; JI64 2; JI64 3]);
+                     ([100], JStr [116;97;105;108])] in
+  klidx_inv ex_wb_doc /\ wb_store ex_wb_doc = Some ex_wb_doc /\
+  doc_val (snd (patch_node ex_fo ex_wb_doc [add 88])) = Some (res 88) /\ representable (res 88) = false /\
+  jbl_patch_model ex_fo ex_wb_doc [add 88] = (RcCreation, ex_wb_doc) /\
+  representable (res 121) = true /\ jbl_patch_model ex_fo ex_wb_doc [add 121] = (RcOk, of_val 0 [] (res 121)).
+Proof. cbv zeta. split; [apply of_val_inv1 | repeat split; vm_compute; reflexivity]. Qed.
+
+(* earlier operations of the same patch succeed, the last one renames a member to a case-only twin ("KEY" next to "key"):
+   nothing of the earlier operations stays; names of 255 bytes are stored, 256 bytes are not *)
+Example C15_ex_writeback_after_ops :
+  let doc := of_val 0 [] (JObj [([97;114;114], JArr [JI64 10; JI64 20; JI64 30; JI64 40]); ([107;101;121], JStr [118]); ([110], JI64 5)]) in
+  let raw := [{| r_op := ORemove; r_path := Some [47;97;114;114;47;48]; r_from := None; r_val := None |};
+              {| r_op := OAdd; r_path := Some [47;97;114;114;47;45]; r_from := None; r_val := Some (ex_vnode (JI64 50)) |};
+              {| r_op := OMove; r_path := Some [47;75;69;89]; r_from := Some [47;110]; r_val := None |}] in
+  fst (patch_node ex_fo doc raw) = RcOk /\ jbl_patch_model ex_fo doc raw = (RcCreation, doc) /\
+  representable (JObj [(repeat 107 255%nat, JNull)]) = true /\ representable (JObj [(repeat 107 256%nat, JNull)]) = false /\
+  representable (JArr [JObj [([110;97;109;101], JNull); ([120], JNull); ([78;97;109;69], JNull)]]) = false /\
+  representable (JObj [([110;97;109;101], JNull); ([78;97;109;101;115], JNull); ([195;169], JNull); ([195;137], JNull)]) = true.
+Proof. cbv zeta. repeat split; vm_compute; reflexivity. Qed.
